@@ -34,6 +34,9 @@ def machines():
     yield "chained-pairs-through-a-feed-through", build({"x": ("input", []), "a": ("input", []), "b": ("input", []), "o": ("xor", ["a", "b", "x"]), "y": ("and", ["a", "b"])}, outputs=["o", "a", "y"]), {"o": "a", "a": "b"}
     # a plain (non-state) input that is also marked as an output: its per-step copies stay free inputs
     yield "free-input-that-is-an-output", build({"x": ("input", []), "s": ("input", []), "ns": ("xnor", ["x", "s"]), "y": ("or", ["x", "s"])}, outputs=["ns", "y", "x"]), {"ns": "s"}
+    # nets that already carry the names unroll gives to the per-step io copies (`<io>_cg_unroll_<step>`)
+    yield "nets-named-like-the-step-copies", build({"a": ("input", []), "a_cg_unroll_0": ("input", []), "s": ("input", []), "s_cg_unroll_1": ("input", []), "o": ("and", ["a", "a_cg_unroll_0", "s"]),
+                                                    "y": ("xor", ["s", "s_cg_unroll_1"])}, outputs=["o", "y"]), {"o": "s"}
     yield "state-out-used-as-output", build({"x": ("input", []), "s": ("input", []), "ns": ("or", ["x", "s"])}, outputs=["ns"]), {"ns": "s"}
 
 
@@ -117,6 +120,15 @@ def seq_machines():
     c7 = build({"din": ("input", []), "x": ("input", []), "clk": ("input", []), "u.clk": ("bb_input", ["clk"]), "u.rst": ("bb_input", ["clk"]), "u.d": ("bb_input", ["din"]), "u.q": ("bb_output", []),
                 "w": ("buf", ["u.q"]), "y": ("nand", ["w", "x"])}, outputs=["y"], blackboxes={"u": fr})
     yield "two-ignored-pins-and-an-input-register", c7, fr
+    # a primary input that is also a primary output and drives nothing else (its per-step copies are free inputs *and* outputs)
+    c8 = build({"x": ("input", []), "p": ("input", []), "clk": ("input", []), "u.clk": ("bb_input", ["clk"]), "u.d": ("bb_input", ["g"]), "u.q": ("bb_output", []), "w": ("buf", ["u.q"]),
+                "g": ("xor", ["x", "w"]), "y": ("buf", ["g"])}, outputs=["y", "p"], blackboxes={"u": ff})
+    yield "feed-through-input-output-without-other-loads", c8, ff
+    # a flop whose q pin is not connected to anything (lint-clean: the unloaded rule is off by default) next to a connected one
+    c9 = build({"x": ("input", []), "clk": ("input", []), "u.clk": ("bb_input", ["clk"]), "u.d": ("bb_input", ["g"]), "u.q": ("bb_output", []), "w": ("buf", ["u.q"]),
+                "v.clk": ("bb_input", ["clk"]), "v.d": ("bb_input", ["x"]), "v.q": ("bb_output", []),
+                "g": ("xnor", ["x", "w"]), "y": ("buf", ["g"])}, outputs=["y"], blackboxes={"u": ff, "v": ff})
+    yield "flop-with-an-unconnected-q-pin", c9, ff
 
 
 # the documented forms of ignore_pins: one name, or a list of names
@@ -222,6 +234,10 @@ def run(chk):
         chk.ob("C09.G.guards", f"unroll::blackboxes::{name}", r[0] == "raise" and r[1] == "ValueError", file=FILE, func="unroll", line=fu.node.lineno, fact={"result": str(r)[:100]}, expect="ValueError")
         insts = sorted(c.blackboxes)
         configs = [(False, None), (True, None), (False, "0"), (False, "1"), (True, {insts[0]: "1"})]
+        if len(insts) > 1:
+            # a per-flop dictionary that names every flop, written in the opposite order of the instances, with different values
+            configs.append((False, {insts[-1]: "0", insts[0]: "1"}))
+            configs.append((False, {insts[-1]: "1", insts[0]: "0"}))
         for n, caller, tag in [(n_, P, "") for n_ in steps] + [(2, FS, "@full-stack")]:
             for afo, init in configs if caller is P else configs[1::2]:
                 snap = c._snapshot()
